@@ -131,7 +131,7 @@ pub fn run(o: &Opts, rep: &mut Report) {
         Some(v) => ALL_OPS.iter().copied().filter(|x| v.iter().any(|y| y == x)).collect(),
         None => ops_for(&o.prop),
     };
-    let total: u64 = o.cases.unwrap_or(if o.tier == "thorough" { 6_000_000 } else { 260_000 });
+    let total: u64 = o.cases.unwrap_or(if o.tier == "thorough" { 4_000_000 } else { 260_000 });
     let per_op = (total / ops.len() as u64).max(1);
     let known = load_known(&o.known);
     let which = Which::for_prop(&o.prop);
